@@ -1,7 +1,7 @@
 """The implementation side of spec/Launcher.tla (C17).
 
 `World` is one configuration of a real plumpy.ProcessLauncher (persister or none, InMemoryPersister / PicklePersister in a
-scratch directory, default or custom object loader, style of the constructor arguments) on the single-stepping loop of
+scratch directory, default or custom object loader, with or without a caller-supplied load_context, style of the constructor arguments) on the single-stepping loop of
 harness/vloop.py.  The actions of the specification are performed on it
 
   * directly: `launcher(communicator, task_body)` as a task of the loop (route 'direct'), or
@@ -134,19 +134,26 @@ class CountingDefaultLoader(loaders.DefaultObjectLoader):
 
 
 class CustomLoader(CountingDefaultLoader):
-    """A loader with identifiers of its own for the process classes; everything else as the default loader."""
+    """A loader with aliases of its own for the process classes, kept in a table of the INSTANCE (as a loader filled from
+    entry points at start-up would): only the configured instance resolves them, a second instance of the class or the
+    global default loader cannot.  Everything else as the default loader."""
     WHO = 'custom'
 
+    def __init__(self, registry=None):
+        super().__init__()
+        self.registry = dict(registry or {})
+
     def load_object(self, identifier):
-        if identifier in CUSTOM_NAMES:
+        if identifier in self.registry:
             if self.events is not None and not self._identifying and not _SILENT[0]:
                 self.events.append((self.WHO, identifier))
-            return CLASSES[CUSTOM_NAMES[identifier]]
+            return self.registry[identifier]
         return super().load_object(identifier)
 
     def identify_object(self, obj):
-        if isinstance(obj, type) and obj in CLASSES.values():
-            return 'custom:%s' % obj.CLS
+        for alias, cls in self.registry.items():
+            if obj is cls:
+                return alias
         return super().identify_object(obj)
 
 
@@ -243,7 +250,7 @@ class World:
         loaders.set_object_loader(self.global_loader)
         self.custom = None
         if cfg['loader'] == 'custom':
-            self.custom = CustomLoader()
+            self.custom = CustomLoader({'custom:%s' % k: c for k, c in CLASSES.items()})
             self.custom.events = self.events
         self.dir = None
         self.persister = None
@@ -253,7 +260,11 @@ class World:
             else:
                 self.dir = tempfile.mkdtemp(prefix='verif-c17-', dir=SCRATCH_BASE)
                 self.persister = plumpy.PicklePersister(self.dir)
-        self.launcher = plumpy.ProcessLauncher(loop=self.loop, persister=self.persister, loader=self.custom)
+        kwargs = {}
+        if cfg.get('ctx'):
+            # a caller-supplied load context carrying unrelated runtime data (no loader in it)
+            kwargs['load_context'] = plumpy.LoadSaveContext(runtime_marker='verif')
+        self.launcher = plumpy.ProcessLauncher(loop=self.loop, persister=self.persister, loader=self.custom, **kwargs)
         self.insts = []                  # instances in order of appearance
         self.meta = []                   # per instance: origin, from (state, outputs) when loaded, steps
         self.newpids = []                # real pids of constructed processes, in construction order: model pid = index + 1
